@@ -43,9 +43,14 @@ LenW(W, vs) == IF vs = {} THEN 0 ELSE Len(W[CHOOSE v \in vs : TRUE])
 AppendW(W, s, vs) == [v \in vs |-> Append(W[v], s[v])]
 PrefixW(W, k, vs) == [v \in vs |-> SubSeq(W[v], 1, k)]
 
+\* the current value of every input is state, too: update() may leave a variable out, which then keeps the value it was
+\* last given - or the default value of its declaration (0) if it was never given since the object was created or reset
+Default(vs) == [v \in vs |-> 0]
 NewObj(c) == [cfg |-> c, phase |-> "new", phi |-> Null, inst |-> Null,
               hist |-> EmptyW(c.vars), ts |-> <<>>, on |-> <<>>, outOn |-> <<>>,
-              offOut |-> <<>>, viol |-> 0]
+              offOut |-> <<>>, viol |-> 0, cur |-> Default(c.vars)]
+\* the sample an update() with the (possibly partial) assignment s means
+Full(m, s) == [v \in m.cfg.vars |-> IF v \in DOMAIN s THEN s[v] ELSE m.cur[v]]
 
 ---------------------------------------------------------------------------
 \* parse()
@@ -80,11 +85,13 @@ UpdateOut(m, s, Dev) ==
            y == OutSecondVisit(p.l, cur, s, c.S, c.M) IN
        Out([p EXCEPT !.l = [op |-> "const", c |-> x], !.r = [op |-> "const", c |-> y]], cur, s, c.S, c.M)
   ELSE Out(p, cur, s, c.S, c.M)
-UpdateF(m, s, t, Dev) ==
+UpdateF(m, s0, t, Dev) ==
+  LET s == Full(m, s0) IN
   [m EXCEPT !.phase = "online",
             !.outOn = Append(m.outOn, UpdateOut(m, s, Dev)),
             !.on = StepOn(CurOn(m), s, m.cfg.S, m.cfg.M),
             !.hist = AppendW(m.hist, s, m.cfg.vars),
+            !.cur = s,
             !.ts = Append(m.ts, t),
             !.viol = IF m.ts # <<>> /\ BadGap(m.cfg, t - m.ts[Len(m.ts)]) THEN m.viol + 1 ELSE m.viol]
 
@@ -95,6 +102,8 @@ ResetF(m, Dev) ==
   [m EXCEPT !.phase = IF m.phase = "stale" THEN "online" ELSE m.phase,
             !.on = InitOn(m.inst), !.outOn = <<>>,
             !.hist = EmptyW(m.cfg.vars), !.ts = <<>>,
+            \* (deviation resetKeepsInputs: the code before its repair kept the last values of the inputs)
+            !.cur = IF "resetKeepsInputs" \in Dev THEN m.cur ELSE Default(m.cfg.vars),
             !.viol = IF "resetKeepsViol" \in Dev \/ ("staleKeepsViol" \in Dev /\ m.phase = "stale") THEN m.viol ELSE 0]
 
 \* evaluate(dataset): the offline result is the semantics of the whole trace
@@ -116,7 +125,8 @@ CONSTANTS K,          \* number of objects side by side
           Gaps,       \* gaps between consecutive time-stamps
           MaxLen,     \* bound on samples per object
           Dev,        \* deviations switched on ({} = intended design)
-          Mode        \* "online" | "offline": which half of the API the configuration explores
+          Mode        \* "online" | "offline": which half of the API the configuration explores;
+                      \* "partial": online, and an update() may leave variables out
 
 VARIABLE ms
 vars == <<ms>>
@@ -126,18 +136,21 @@ Init == ms \in [1..K -> {NewObj(c) : c \in Configs}]
 NextStamp(m, g) == IF m.ts = <<>> THEN 0 ELSE m.ts[Len(m.ts)] + g
 
 Parse(i, f)   == CanParse(ms[i]) /\ ms' = [ms EXCEPT ![i] = ParseF(ms[i], f)]
-PastifyA(i)   == Mode = "online" /\ CanPastify(ms[i]) /\ ms' = [ms EXCEPT ![i] = PastifyF(ms[i], Dev)]
-Update(i, s, g) == /\ Mode = "online" /\ CanUpdate(ms[i]) /\ Len(ms[i].outOn) < MaxLen
+OnlineMode == Mode \in {"online", "partial"}
+Samples(vs) == IF Mode = "partial" THEN UNION {[D -> Vals] : D \in SUBSET vs} ELSE [vs -> Vals]
+PastifyA(i)   == OnlineMode /\ CanPastify(ms[i]) /\ ms' = [ms EXCEPT ![i] = PastifyF(ms[i], Dev)]
+Update(i, s, g) == /\ OnlineMode /\ CanUpdate(ms[i]) /\ Len(ms[i].outOn) < MaxLen
                    /\ ms' = [ms EXCEPT ![i] = UpdateF(ms[i], s, NextStamp(ms[i], g), Dev)]
-Reset(i)      == Mode = "online" /\ CanReset(ms[i]) /\ ms' = [ms EXCEPT ![i] = ResetF(ms[i], Dev)]
-Repastify(i)  == Mode = "online" /\ CanRepastify(ms[i]) /\ ms[i].phase = "online" /\ ms' = [ms EXCEPT ![i] = RepastifyF(ms[i])]
+Reset(i)      == OnlineMode /\ CanReset(ms[i]) /\ ms' = [ms EXCEPT ![i] = ResetF(ms[i], Dev)]
+Repastify(i)  == OnlineMode /\ CanRepastify(ms[i]) /\ ms[i].phase = "online" /\ ms' = [ms EXCEPT ![i] = RepastifyF(ms[i])]
 Extend(i, s, g) == /\ Mode = "offline" /\ CanEvaluate(ms[i]) /\ Len(ms[i].ts) < MaxLen
                    /\ ms' = [ms EXCEPT ![i] = ExtendF(ms[i], s, NextStamp(ms[i], g))]
 
 Next == \E i \in 1..K :
           \/ \E f \in Formulas : Parse(i, f)
           \/ PastifyA(i)
-          \/ \E s \in [ms[i].cfg.vars -> Vals], g \in Gaps : Update(i, s, g) \/ Extend(i, s, g)
+          \/ \E s \in Samples(ms[i].cfg.vars), g \in Gaps : Update(i, s, g)
+          \/ \E s \in [ms[i].cfg.vars -> Vals], g \in Gaps : Extend(i, s, g)
           \/ Reset(i)
           \/ Repastify(i)
 
@@ -183,6 +196,9 @@ RECURSIVE Replay(_, _, _, _)
 Replay(p, W, k, c) == IF k = 0 THEN InitOn(p)
                       ELSE StepOn(Replay(p, W, k - 1, c), [v \in c.vars |-> W[v][k]], c.S, c.M)
 C10fresh(m) == m.phase = "online" => m.on = Replay(m.inst, m.hist, Len(m.outOn), m.cfg)
+\* ... and the current input values are those of the last sample since the last reset, or the defaults
+C10cur(m) == m.phase = "online" =>
+               m.cur = (IF m.ts = <<>> THEN Default(m.cfg.vars) ELSE [v \in m.cfg.vars |-> m.hist[v][Len(m.ts)]])
 
 \* C13: the counter equals the number of out-of-tolerance gaps since the last reset / of the data set
 C13(m) == m.phase \in {"online", "offline"} => m.viol = CountBad(m.cfg, m.ts)
@@ -191,14 +207,14 @@ InvC01 == \A i \in 1..K : C01len(ms[i])
 InvC02 == \A i \in 1..K : C02(ms[i]) /\ C02prefix(ms[i])
 InvC03 == \A i \in 1..K : C03(ms[i]) /\ C03nf(ms[i])
 InvC03all == \A i \in 1..K : C03all(ms[i])
-InvC10 == \A i \in 1..K : C10fresh(ms[i])
+InvC10 == \A i \in 1..K : C10fresh(ms[i]) /\ C10cur(ms[i])
 InvC13 == \A i \in 1..K : C13(ms[i])
 
 \* C10 as an action property: a step that empties outOn of an online object is a reset and leaves it
 \* in the initial state
 ActC10 == [][\A i \in 1..K :
               ((OnlinePhase(ms[i]) \/ ms[i].phase = "stale") /\ ms'[i].phase = "online" /\ ms'[i].outOn = <<>>) =>
-                 (ms'[i].on = InitOn(ms[i].inst) /\ ms'[i].viol = 0 /\ ms'[i].ts = <<>>)]_vars
+                 (ms'[i].on = InitOn(ms[i].inst) /\ ms'[i].viol = 0 /\ ms'[i].ts = <<>> /\ ms'[i].cur = Default(ms[i].cfg.vars))]_vars
 
 \* C11 (isolation): a step changes at most one object
 ActC11 == [][\A i, j \in 1..K : (i # j /\ ms'[i] # ms[i]) => ms'[j] = ms[j]]_vars
